@@ -67,7 +67,7 @@ add("C05", "exploration",
 
 add("C14", "exploration",
     "ground-truth cell comparison on a chain whose every field value is distinct and non-zero, over all singles and pairs of selectable field names per indexing mode (exhaustive) and random larger sets",
-    "All singles and all pairs of mode-compatible field names (tx without event, log with event, trace) are run through ValidateFix and the full pipeline on a chain in which every field of every item has its own non-zero value; every stored cell is compared with what the source reported, the chosen plan and wrong columns are part of the key. Random larger sets on top.",
+    "All singles and all pairs of mode-compatible field names (tx without event, log with event, trace) are run through ValidateFix and the full pipeline on a chain in which every field of every item has its own non-zero value; every stored cell is compared with what the source reported, the chosen plan and wrong columns are part of the key. Random larger sets on top. A third of the runs shares the source (one client, one set of download caches) with a neighbour integration that needs another kind of download for the same ranges.",
     PIPE_NOTE, "DESIGN.md §7 C14")
 
 add("C07", "exploration",
@@ -97,12 +97,12 @@ add("C11", "exploration",
 
 add("C12", "exploration",
     "reference filter predicate per item (per-filter result, and/or fold) vs emitted rows on the direct Insert path, and pipeline runs against a node that applies address/topic restrictions faithfully (pushdown must lose nothing); attribution of a wrong outcome to pushdown, a single filter, or the aggregation",
-    "Operators × value kinds of the documented matrix (contains/!contains on byte strings and strings; eq/ne on byte strings, strings, uint64, uint256; gt/lt on uint64, uint256), one or several arguments, filters on indexed and non-indexed inputs and on block fields incl. log_addr, both aggregations with 1–3 filters, values at/just below/just above the arguments, one-byte-off and fragment arguments, reference filters against pre-populated and integration-produced tables. Pipeline cases compare the table at quiescence with the projection, so a log that the source never served because of an over-restrictive eth_getLogs filter is a missing row.",
+    "Operators × value kinds of the documented matrix (contains/!contains on byte strings and strings; eq/ne on byte strings, strings, uint64, uint256; gt/lt on uint64, uint256), one or several arguments, filters on indexed and non-indexed inputs and on block fields incl. log_addr, both aggregations with 1–3 filters, values at/just below/just above the arguments, one-byte-off and fragment arguments, reference filters against pre-populated and integration-produced tables, a second filter on a component of a tuple input next to a pushed-down log_addr filter. Pipeline cases compare the table at quiescence with the projection, so a log that the source never served because of an over-restrictive eth_getLogs filter is a missing row.",
     PIPE_NOTE + " String contains is membership in both shovel and the oracle; only arguments on which membership and substring agree are generated.", "DESIGN.md §7 C12")
 
 add("C15", "exploration",
     "marker search over every SQL statement text the fake Postgres receives (simple queries and Parse), for every string-valued position of rich configurations replaced in turn by hostile strings, through the file lifecycle and the dashboard lifecycle; chain data carries its own marker",
-    "The configuration JSON tree is walked generically: each of ~314 string positions (76 path classes, file and dashboard) is replaced by 7 hostile strings and 2 controls; each variant runs decode → ValidateFix → Migrate → task construction → steps incl. a reorg deletion, reference lookups and notifications, or POST to the real SaveIntegration/SaveSource handlers → load → steps. A hostile marker may never appear in statement text (parameters and COPY data are exempt); a rejected configuration must not have produced a statement with the marker; the plain control must be accepted and run (vacuity guard).",
+    "The configuration JSON tree is walked generically: each of ~314 string positions (76 path classes, file and dashboard) is replaced by hostile strings (7 general ones, valid-prefix tails, and index-entry shapes such as a direction or a longer ordering clause followed by more text) and 2 controls; each variant runs decode → ValidateFix → Migrate → task construction → steps incl. a reorg deletion, reference lookups and notifications, or POST to the real SaveIntegration/SaveSource handlers → load → steps. A hostile marker may never appear in statement text (parameters and COPY data are exempt); a rejected configuration must not have produced a statement with the marker; the plain control must be accepted and run (vacuity guard).",
     PIPE_NOTE + " ' desc'/' asc' suffixes are legitimate in table.index entries.", "DESIGN.md §7 C15")
 
 add("C16", "exploration",
